@@ -1054,6 +1054,22 @@ static void do_interior_pages_pattern(State& S) {
   for (vf::Blk* b : extra) do_free(S, b);
 }
 
+// one page of a tiny size class filled to its very last block (pages are extended lazily: the last block is only handed out when all others are live), with
+// pages of another class around it: the end of a page's block area against the start of the next slice
+static void do_full_tiny_page_pattern(State& S) {
+  static const size_t tiny[] = { 1, 8, 8, 8, 16, 24, 40, 56 };
+  const size_t n = tiny[below(S, sizeof(tiny) / sizeof(tiny[0]))];
+  const size_t bs = mi_good_size(n) + (S.cfg.padding ? 8 : 0);
+  size_t count = (64 * KiB) / (bs ? bs : 8) + 40;                          // a little more than one page
+  if (S.sm.live.size() + count + 64 > S.cfg.max_live_blocks) return;
+  std::vector<vf::Blk*> got;
+  for (int k = 0; k < 12; k++) { vf::Blk* b = do_alloc(S, EP_malloc, 1500 + 100 * (size_t)below(S, 10)); if (b) got.push_back(b); }   // neighbours before ...
+  for (size_t i = 0; i < count; i++) { vf::Blk* b = do_alloc(S, EP_malloc, n); if (b) got.push_back(b); if (i == count / 2) { vf::Blk* x = do_alloc(S, EP_malloc, 2048); if (x) got.push_back(x); } }
+  for (int k = 0; k < 12; k++) { vf::Blk* b = do_alloc(S, EP_malloc, 1500 + 100 * (size_t)below(S, 10)); if (b) got.push_back(b); }   // ... and after
+  for (vf::Blk* b : got) S.sm.verify(b, "after filling a page of a tiny class completely");
+  for (vf::Blk* b : got) do_free(S, b);
+}
+
 // several threads terminate one after the other, each leaving live blocks behind (several abandoned segments at the same time); then the blocks of one thread
 // after the other are freed by this thread -- starting with a thread in the middle of the abandonment order -- with a full walk comparison after every group
 // (reclaim-on-free takes that segment out of the middle of the abandoned set; the others must still be reported completely)
@@ -1295,6 +1311,7 @@ void history_step(State& S) {
   if (walkprof && S.cfg.threads && S.cfg.abandon_ok && (S.op_index % 400) == 200) do_abandoned_pattern(S);
   if (S.cfg.profile == "heaps" && S.cfg.threads && !S.cfg.abandon_ok && (S.op_index % 500) == 250) do_tagged_destroy_pattern(S);
   if (S.cfg.threads && S.cfg.abandon_ok && (S.op_index % 600) == 300) do_force_abandon_pattern(S);
+  if ((S.cfg.profile == "general" || S.cfg.profile == "walk") && S.op_index > 0 && (S.op_index % 1500) == 700) do_full_tiny_page_pattern(S);
   if (S.cfg.profile == "aligned" && (S.op_index % 250) == 125) do_small_aligned_pattern(S);
   if (S.cfg.profile == "aligned" && (S.op_index % 500) == 375) do_interior_pages_pattern(S);
   if (S.cfg.trace >= 2 && S.foreign_live == 0) check_conservation(S, "paranoid", "C12");
